@@ -93,17 +93,20 @@ def exceptOK (ex : List Bytes) (pre post : Jar) : Bool :=
 /-- no cookie name is invented or lost -/
 def namesOK (pre post : Jar) : Bool := distinctKeys post == distinctKeys pre
 
-/-- lookup view (`c.Cookies(name)`) -/
+/-- lookup view (`c.Cookies(name)`), non-excepted names -/
 def lookOK (wc : WireCodec) (ex : List Bytes) (iss : Issued) (pre : Jar)
     (look : List (Bytes × Bytes)) : Bool :=
   look.all fun e =>
-    if isDisabled e.1 ex then e.2 == lookup pre e.1
-    else
-      valueOK wc iss pre e.1 e.2 &&
-      (match bindValues pre e.1 with
-       | [] => e.2 == []
-       | [r] => expectOne wc iss r e.2
-       | _ => true)
+    isDisabled e.1 ex ||
+      (valueOK wc iss pre e.1 e.2 &&
+       (match bindValues pre e.1 with
+        | [] => e.2 == []
+        | [r] => expectOne wc iss r e.2
+        | _ => true))
+
+/-- lookup view, excepted names: the client's own (first) value -/
+def lookExceptOK (ex : List Bytes) (pre : Jar) (look : List (Bytes × Bytes)) : Bool :=
+  look.all fun e => !isDisabled e.1 ex || e.2 == lookup pre e.1
 
 /-- Bind().Cookie view -/
 def bindOK (wc : WireCodec) (ex : List Bytes) (iss : Issued) (pre : Jar)
@@ -123,6 +126,7 @@ def reqViolation (wc : WireCodec) (ex : List Bytes) (iss : Issued) (pre : Jar)
   else if !bindOK wc ex iss pre v.bind then some "handler-bind-other-text"
   else if !onceOK wc ex iss pre v.enum then some "roundtrip-or-rejection"
   else if !exceptOK ex pre v.enum then some "except-request-changed"
+  else if !lookExceptOK ex pre v.look then some "except-lookup-changed"
   else if !namesOK pre v.enum then some "cookie-names-changed"
   else if !hdrOK v then some "cookie-header-view"
   else none
@@ -168,5 +172,41 @@ def respViolation (wc : WireCodec) (ex : List Bytes) (keyValid : Bool) (iss : Is
       some (if ws.length != pre.length then "response-cookie-count" else "client-sees-non-ciphertext-or-changed-cookie")
     else if !noncesOK wc iss then some "nonce-reused"
     else none
+
+/-- the log of what a response issued: (wire text, plaintext) of every non-excepted cookie -/
+def issuedBy (ex : List Bytes) : List RCookie → List WCookie → Issued
+  | c :: cs, w :: ws =>
+    if isDisabled c.key ex then issuedBy ex cs ws else (w.value, c.pvalue) :: issuedBy ex cs ws
+  | _, _ => []
+
+/-! ### histories -/
+
+/-- one request/response exchange: what arrives, which names the handler looks up, which cookies it
+    sets, and the randomness the encryptions draw -/
+structure Step where
+  jar : Jar
+  ks : List Bytes
+  cookies : List RCookie
+  nonces : List Bytes
+
+/-- the issued log after a step (nothing is added when the response panics) -/
+def nextLog (C : Codec) (ex : List Bytes) (log : Issued) (s : Step) : Issued :=
+  match encryptJar C ex s.nonces s.cookies with
+  | some ws => log ++ issuedBy ex s.cookies ws
+  | none => log
+
+/-- every step of a history, judged by the oracle against the log issued BEFORE it (requests) and
+    including it (responses) -/
+def historyViolation (C : Codec) (wc : WireCodec) (ex : List Bytes) : Issued → List Step → Option String
+  | _, [] => none
+  | log, s :: rest =>
+    match reqViolation wc ex log s.jar (modelViews C ex s.jar s.ks) with
+    | some c => some c
+    | none =>
+      match encryptJar C ex s.nonces s.cookies with
+      | none => historyViolation C wc ex log rest
+      | some ws =>
+        if !respAllOK wc ex (log ++ issuedBy ex s.cookies ws) s.cookies ws then some "response"
+        else historyViolation C wc ex (log ++ issuedBy ex s.cookies ws) rest
 
 end C20
